@@ -324,8 +324,13 @@ def _rewrite_node(n, f):
         n.stmt = ('return', f(s[1]), s[2])
 
 
+import re as _re
+PURE_CALL = _re.compile(r'(^|::)(get_\w+|is_\w+|has_\w+|empty|size|back|front|mass|fermi|cgamma|quiet_nan)$')
+
+
 def _pure(e):
-    return ir.count_draws(e) == 0 and not any(x[0] == 'call' for x in ir.subexprs(e))
+    return ir.count_draws(e) == 0 and not any(x[0] == 'call' and not PURE_CALL.search(x[1])
+                                              for x in ir.subexprs(e))
 
 
 EXTERNAL_MOD = {'gauss': set(), 'dgmlt1': {5}, 'dgmlt2': {5}, 'divdif': set(), 'cgamma': set(), 'ranlux': {0}}
@@ -419,6 +424,141 @@ def drop_defensive_throws(g, record):
     return cfgm.compact(g, drop=('nop', 'io'))
 
 
+def split_webs(g, outputs, lang, record=None, inputs=()):
+    """rename every scalar local into its def-use webs (v -> v~k): two unrelated reuses of one name become two
+    variables, so that the normal form does not depend on how a language scopes or recycles its temporaries.
+    Reference side: a use reached only by 'no definition' of a local reads 0 (static storage) - recorded."""
+    defs_of, uses_of, weak = {}, {}, {}
+    for n in g.nodes:
+        d = set()
+        w = set()
+        if n.kind == 'assign' and n.stmt[1][0] == 'var':
+            d.add(n.stmt[1][1])
+        calls = []
+        for e in _stmt_exprs(n):
+            for x in ir.subexprs(e):
+                if x[0] == 'call':
+                    calls.append((x[1], x[2:]))
+        if n.kind == 'call':
+            calls.append((n.stmt[1], n.stmt[2]))
+        for name, args in calls:
+            for i, a in enumerate(args):
+                if a[0] == 'var' and _maywrite(lang, name, i):
+                    w.add(a[1])
+        defs_of[n.id] = d
+        weak[n.id] = w
+        uses_of[n.id] = set(node_uses(n))
+    allvars = set()
+    for n in g.nodes:
+        allvars |= defs_of[n.id] | weak[n.id] | uses_of[n.id]
+    allvars = {v for v in allvars if not v.startswith('$') and not v.startswith('@')}
+    ENTRY = -1
+    IN = {n.id: set() for n in g.nodes}
+    OUT = {n.id: set() for n in g.nodes}
+    preds = g.preds()
+    order = g.rpo()
+    init = {(v, ENTRY) for v in allvars}
+    changed = True
+    while changed:
+        changed = False
+        for i in order:
+            n = g.nodes[i]
+            inn = set(init) if n is g.entry else set()
+            for p in preds[i]:
+                inn |= OUT[p]
+            out = {(v, d) for (v, d) in inn if v not in defs_of[i]}
+            out |= {(v, i) for v in defs_of[i]} | {(v, i) for v in weak[i]}
+            if inn != IN[i] or out != OUT[i]:
+                IN[i], OUT[i] = inn, out
+                changed = True
+    parent = {}
+
+    def find(x):
+        while parent.setdefault(x, x) != x:
+            parent[x] = parent[parent[x]]
+            x = parent[x]
+        return x
+
+    def union(a, b):
+        parent[find(a)] = find(b)
+    for i in order:
+        for v in (uses_of[i] | weak[i]) & allvars:
+            ds = [(v, d) for (vv, d) in IN[i] if vv == v]
+            for a in ds[1:]:
+                union(ds[0], a)
+            if v in weak[i]:
+                for a in ds:
+                    union(a, (v, i))
+    for n in g.nodes:
+        if not n.succ:
+            for (v, d) in OUT[n.id]:
+                if v in outputs:
+                    union((v, d), (v, ENTRY))
+    names = {}
+    count = {}
+    for i in order:
+        for v in defs_of[i] | weak[i]:
+            if v not in allvars:
+                continue
+            r = find((v, i))
+            if r == find((v, ENTRY)) or v in outputs:
+                names[(v, i)] = v
+            else:
+                if r not in names:
+                    count[v] = count.get(v, 0) + 1
+                    names[r] = '%s~%d' % (v, count[v])
+                names[(v, i)] = names[r]
+    zero_uses = []
+
+    def use_name(i, v):
+        ds = [d for (vv, d) in IN[i] if vv == v]
+        if lang == 'f' and record is not None and ds == [ENTRY] and v not in outputs and v not in inputs \
+                and v not in weak[i]:
+            zero_uses.append((v, g.nodes[i].line))
+            return None
+        for d in ds:
+            if d == ENTRY:
+                continue
+            return names.get((v, d), v)
+        return v
+    for i in order:
+        n = g.nodes[i]
+        if n.stmt is None or n.kind not in ('assign', 'call', 'branch', 'eval', 'return'):
+            continue
+        ren = {v: use_name(i, v) for v in (uses_of[i] | weak[i]) & allvars}
+        ren = {k: v for k, v in ren.items() if k != v}
+
+        def f(e, ren=ren):
+            if not ren:
+                return e
+            return canon(ir.map_expr(lambda x: (('var', ren[x[1]]) if ren[x[1]] is not None else ('num', Fraction(0)))
+                                     if x[0] == 'var' and x[1] in ren else x, e))
+        s = n.stmt
+        if n.kind == 'assign':
+            l = s[1]
+            if l[0] == 'var':
+                l = ('var', names.get((l[1], i), l[1]))
+            else:
+                l = ('idx', l[1]) + tuple(f(x) for x in l[2:])
+            n.stmt = ('assign', l, f(s[2]), s[3])
+        elif n.kind == 'call':
+            args = []
+            for k, a in enumerate(s[2]):
+                if a[0] == 'var' and a[1] in weak[i] and _maywrite(lang, s[1], k):
+                    args.append(('var', names.get((a[1], i), a[1])))
+                else:
+                    args.append(f(a))
+            n.stmt = ('call', s[1], tuple(args), s[3])
+        elif n.kind in ('branch', 'eval'):
+            n.stmt = (s[0], f(s[1]), s[2])
+        elif n.kind == 'return' and s[1] is not None:
+            n.stmt = ('return', f(s[1]), s[2])
+    if record is not None:
+        for v, line in sorted(set(zero_uses)):
+            record.append(('reference-reads-unassigned-local', line, v))
+    return g
+
+
 def unassigned_locals_to_zero(g, outputs, record):
     """reference side only: a local that is never assigned anywhere in the unit and never passed to a callee
     that may write it is read as 0 (static storage); recorded as an admissible difference"""
@@ -446,10 +586,22 @@ def unassigned_locals_to_zero(g, outputs, record):
     return g
 
 
+def _never_killed(g, d, val, defs, passed):
+    after = g.reachable(d.succ[0])
+    for x in ir.subexprs(val):
+        if x[0] == 'var' and not x[1].startswith('$'):
+            if x[1] in passed:
+                return False
+            for dn in defs.get(x[1], ()):
+                if dn.id in after:
+                    return False
+    return True
+
+
 def normalise_cfg(g, outputs, notes, keep_vars=(), lang=None):
     """returns a new compacted CFG after (a) dropping io/nop, (b) dropping branches whose arms coincide,
        (c) propagating single dominating constant / copy assignments, (d) removing dead stores (liveness)."""
-    for it in range(40):
+    for it in range(400):
         changed = False
         g = cfgm.compact(g, drop=('nop', 'io'))
         # (b) degenerate branches
@@ -485,6 +637,9 @@ def normalise_cfg(g, outputs, notes, keep_vars=(), lang=None):
                     (x[1] not in defs and x[1] not in passed) or x[1].startswith('$')
                     for x in ir.subexprs(val) if x[0] == 'var'):
                 pass                    # pure expression over never-written variables (parameters)
+            elif _pure(val) and not any(x[0] in ('idx', 'fld') for x in ir.subexprs(val)) and v not in outputs \
+                    and len(d.succ) == 1 and _never_killed(g, d, val, defs, passed):
+                pass                    # pure expression none of whose operands can be redefined after this point
             else:
                 continue
             if v in outputs and not is_const_expr(val):
@@ -533,7 +688,7 @@ def normalise_cfg(g, outputs, notes, keep_vars=(), lang=None):
             _rewrite_node(u, lambda e: subst(e, v, val))
             d.kind = 'nop'
             changed = True
-            break
+            preds = g.preds()
         if changed:
             continue
         # (d) dead stores
@@ -720,7 +875,7 @@ class Bisim:
             return out
         fn, cn = names(self.gf), names(self.gc)
         for v in sorted(fn):
-            if v in self.f2c:
+            if v in self.f2c or '~' in v:
                 continue
             for cand in (v, '.' + v):
                 if cand in cn and cand not in self.c2f:
@@ -864,7 +1019,7 @@ class Bisim:
                 return False
             # prefer the candidate that assigns the like-named variable (the bijection is otherwise free)
             def sim(j):
-                a, b = node_def(f) or '', node_def(left[j]) or ''
+                a, b = (node_def(f) or '').split('~')[0], (node_def(left[j]) or '').split('~')[0]
                 k = 0
                 while k < min(len(a), len(b)) and a[-1 - k] == b[-1 - k]:
                     k += 1
@@ -880,6 +1035,8 @@ class Bisim:
 
     def admissible_init(self, c):
         d = node_def(c)
+        if c.kind == 'assign' and c.stmt[1][0] == 'var' and c.stmt[2] == ('call', 'quiet_nan'):
+            return True          # NaN poison of a local the reference leaves unassigned
         return c.kind == 'assign' and c.stmt[1][0] == 'var' and c.stmt[2] == ('num', Fraction(0)) \
             and (d, c.line) in self.admissible_zero_init
 
@@ -954,7 +1111,8 @@ class Bisim:
             m = self.node_eq(f, c)
             if m:
                 self.mism.append(Mismatch('node', f, c, m))
-                continue
+                if f.kind != c.kind or len(self.mism) > 25:
+                    continue
             if len(f.succ) != len(c.succ):
                 self.mism.append(Mismatch('shape', f, c, 'different number of successors after %s' % desc(f)))
                 continue
@@ -1134,6 +1292,52 @@ def prune_conditions(conds):
     return tuple(sorted(out, key=repr))
 
 
+def min_diff(b, x, y, depth=0):
+    """smallest differing sub-expressions of x (reference) and y (port) under the bijection of b"""
+    if x is None or y is None:
+        return [] if x is y else ['reference `%s` vs port `%s`' % (ir.fmt(x), ir.fmt(y))]
+    snap = (dict(b.f2c), dict(b.c2f))
+    if b.eq(x, y):
+        return []
+    b.f2c, b.c2f = snap
+    if x[0] == y[0] and x[0] in ('op', 'call') and x[1] == y[1] and len(x) == len(y) and depth < 40:
+        xs, ys = list(x[2:]), list(y[2:])
+        if x[0] == 'op' and x[1] in COMMUT:
+            rest_y = list(ys)
+            rest_x = []
+            for p in xs:
+                hit = None
+                for j, q in enumerate(rest_y):
+                    snap = (dict(b.f2c), dict(b.c2f))
+                    if b.eq(p, q):
+                        hit = j
+                        break
+                    b.f2c, b.c2f = snap
+                if hit is None:
+                    rest_x.append(p)
+                else:
+                    rest_y.pop(hit)
+            if len(rest_x) == len(rest_y) and rest_x:
+                out = []
+                for p, q in zip(rest_x, rest_y):
+                    for d in min_diff(b, p, q, depth + 1):
+                        if d not in out:
+                            out.append(d)
+                return out
+            if len(rest_x) < len(xs):
+                return ['reference `%s` vs port `%s`' % (' , '.join(ir.fmt(p)[:200] for p in rest_x),
+                                                          ' , '.join(ir.fmt(q)[:200] for q in rest_y))]
+        else:
+            out = []
+            for p, q in zip(xs, ys):
+                for d in min_diff(b, p, q, depth + 1):
+                    if d not in out:
+                        out.append(d)
+            if out:
+                return out
+    return ['reference `%s` vs port `%s`' % (ir.fmt(x)[:300], ir.fmt(y)[:300])]
+
+
 def compare_path_summaries(gf, gc, fparams, cparams, fout=(), cout=()):
     rec = []
     pf, pc = path_summaries(gf, fout, 'f'), path_summaries(drop_defensive_throws(gc, rec), cout, 'c')
@@ -1195,10 +1399,25 @@ def compare_path_summaries(gf, gc, fparams, cparams, fout=(), cout=()):
                 if ok:
                     close = q
                     break
-            m = Mismatch('path', None, None,
-                         'no port path agrees with the reference under [%s]: reference %s%s'
-                         % (' and '.join(ir.fmt(c) for c in p[0]), show(p),
-                            ('; port ' + show(close)) if close else '; the port has no path with these conditions'))
+            if close is not None:
+                snap = (dict(b.f2c), dict(b.c2f))
+                same(p, close, full=False)
+                ds = []
+                for x, y in list(zip(p[1], close[1])) + list(zip(p[2], close[2])) + [(p[3], close[3])]:
+                    ds += min_diff(b, x, y)
+                if len(p[1]) != len(close[1]):
+                    ds.append('different number of calls: %d vs %d' % (len(p[1]), len(close[1])))
+                if len(p[2]) != len(close[2]):
+                    ds.append('different outputs written: reference %s vs port %s' % (
+                        ', '.join(ir.fmt(o[2]) for o in p[2]), ', '.join(ir.fmt(o[2]) for o in close[2])))
+                b.f2c, b.c2f = snap
+                left.remove(close)
+                text = 'under [%s] the reference (line %s) and the port (line %s) differ: %s' % (
+                    ' and '.join(ir.fmt(c) for c in p[0]), p[4], close[4], '; '.join(ds[:4]) or 'variable pairing')
+            else:
+                text = 'no port path has the conditions [%s] of the reference path ending at line %s' % (
+                    ' and '.join(ir.fmt(c) for c in p[0]), p[4])
+            m = Mismatch('path', None, None, text)
             m.fline, m.cline = p[4], (close[4] if close else None)
             mism.append(m)
         else:
